@@ -291,7 +291,11 @@ func (g *gogen) typ(d int) string {
 	case 8:
 		return "func" + g.signature(d+1)
 	case 9: // struct
-		switch g.pick(7) {
+		switch g.pick(9) {
+		case 7: // tag values with characters %q escapes: no-break space, zero-width space, BOM, invalid UTF-8, control
+			return "struct {\n A " + g.typ(d+1) + " \"json:\\\"a\\u00a0b\\u200bc\\ufeff\\\" bin:\\\"\\xff\\x00\\\"\"\n}"
+		case 8: // tag values with percent signs, quotes and backquotes
+			return "struct {\n A " + g.typ(d+1) + " \"fmt:\\\"100%d%%\\\" q:\\\"a\\\\\\\"b`c\\\"\"\n}"
 		case 0:
 			return "struct{}"
 		case 1:
